@@ -156,7 +156,7 @@ def vm_assert_binary(bop: str, typ: str, log: bool = False):
 
             def _f(arg):
                 # TODO: implement extract_bytes_array
-                raise NotImplementedError(f"assert {bop} {typ}[]")
+                raise HalmosException(f"assert {bop} {typ}[] is not supported")
 
             return _f
 
